@@ -10,3 +10,4 @@ import CssVerif.Props.C07
 #print axioms CssVerif.C07.container_delete_allowed
 #print axioms CssVerif.C07.container_reject_unchanged
 #print axioms CssVerif.C07.snapshot_counterexample
+#print axioms CssVerif.C07.snapshot_inorder_index
